@@ -226,7 +226,7 @@ const c14Other = "func Name() string {\n\treturn \"o\"\n}\nfunc Twice(a int) int
 
 func TestC14(t *testing.T) {
 	r, e := start(t, "C14",
-		"a pool of 3-6 programs per case (generated single-file programs, multi-file programs with single/grouped imports of local files and of std, a rejected program, a program using every helper routine) and a random history of 6-30 Transpile calls over programs x {bash, batch} on ONE transpiler object (fresh converter per call), during which imported files of the multi-file programs are rewritten in place between two contents; then the same programs in freshly started processes (new map iteration seeds) and from a relocated copy of the tree with another cwd. Oracle: every observation of the same (content, target) is byte-identical (error texts modulo the directory). Non-trivial = histories in which a (program, target) recurs after at least two other transpilations including one of the other target and a failing one; distinct by history + sources.",
+		"a pool of 3-6 programs per case (generated single-file programs, multi-file programs with single/grouped imports of local files and of std, a rejected program, a program using every helper routine, a program importing two files with identical bytes) and a random history of 6-30 Transpile calls over programs x {bash, batch} on ONE transpiler object (fresh converter per call), during which imported files of the multi-file programs are rewritten in place between two contents; then the same programs in freshly started processes (new map iteration seeds) and from a relocated copy of the tree with another cwd. Oracle: every observation of the same (content, target) is byte-identical (error texts modulo the directory). Non-trivial = histories in which a (program, target) recurs after at least two other transpilations including one of the other target and a failing one; distinct by history + sources.",
 		[]string{"self-comparison is the property here: history, process and location must be irrelevant", "process instances are sampled (quick: 2 per case, thorough: 6), not enumerated"})
 	defer r.Flush()
 	gcfg := gen.Cfg{MaxStmts: 14, MaxDepth: 3, ExprDepth: 3, Funcs: true, MaxFuncs: 3, Slices: true, StrOps: true, LoopBudget: 8, IO: true, Panics: true, ErrSpell: true, BareExpr: true}
@@ -236,7 +236,14 @@ func TestC14(t *testing.T) {
 		c := purityCase{Kind: "purity", Property: "C14", Processes: procs, Relocate: true}
 		hasBad := false
 		for i := 0; i < np; i++ {
-			switch k := gen.Uniform(0, 6).Draw(t, "prog-kind"); k {
+			switch k := gen.Uniform(0, 7).Draw(t, "prog-kind"); k {
+			case 7:
+				// two imported files with identical bytes at different paths (their names in the script must not depend on
+				// where the tree lies), each importing its own neighbour
+				twin := "import nb \"nb.tsh\"\nfunc Who() string {\n\treturn nb.Name()\n}\ncount := 0\nfunc Next() int {\n\tcount = count + 1\n\treturn count\n}\n"
+				c.Progs = append(c.Progs, c14Prog{Kind: "identical-twins", Main: "main.tsh", Files: map[string]string{
+					"main.tsh":     "import (\n\ta \"lib/twin.tsh\"\n\tb \"vendor/twin.tsh\"\n)\nprint(a.Who(), b.Who(), a.Next(), b.Next())\n",
+					"lib/twin.tsh": twin, "vendor/twin.tsh": twin, "lib/nb.tsh": "func Name() string {\n\treturn \"lib\"\n}\n", "vendor/nb.tsh": "func Name() string {\n\treturn \"vendor\"\n}\n"}})
 			case 6:
 				// numbered temporaries (multi-assignment), helper variables and loop flags: any counter that survives a call shows here
 				c.Progs = append(c.Progs, c14Prog{Kind: "counters", Main: "main.tsh", Files: map[string]string{"main.tsh": "a, b, c := 1, 2, 3\na, b = b, a\nfor i := 0; i < 2; i++ {\n\tb, c = c, b\n}\nfunc f(x int) int {\n\tp, q := x, 1\n\tp, q = q, p\n\treturn p + q\n}\nprint(a, b, c, f(a))\n"}})
